@@ -5,6 +5,7 @@ EXTENDS HeaderSig, Json, FiniteSetsExt
 CONSTANTS NsFull,        \* group sizes whose bitmaps (expected length) are enumerated exhaustively
           NsSampled,     \* group sizes whose bitmaps are enumerated modulo SampleMod (residue SampleRes)
           SampleMod, SampleRes,
+          ModeMod,       \* dishonest-aggregate cases are generated for bitmaps in residue class SampleRes % ModeMod
           NsAlpha,       \* group sizes with bitmaps over the byte alphabet AlphaBytes
           AlphaBytes,
           NsBig,         \* large groups (63 = shard, 400 = metachain): prefix-shaped bitmaps around the threshold
@@ -31,7 +32,9 @@ SgOf(mode, n, bm) ==
       [] mode = "all"        -> 0..(n - 1)
       [] mode = "foreign"    -> {}                                    \* shares were made over another message
 
-Keep(bm) == SampleMod = 1 \/ (bm[1] * 31 + (IF Len(bm) > 1 THEN bm[2] * 17 ELSE 0)) % SampleMod = SampleRes
+Mix(bm) == bm[1] * 31 + (IF Len(bm) > 1 THEN bm[2] * 17 ELSE 0)
+Keep(bm) == SampleMod = 1 \/ Mix(bm) % SampleMod = SampleRes % SampleMod
+KeepM(bm) == ModeMod = 1 \/ (Mix(bm) + bm[1] \div 16) % ModeMod = SampleRes % ModeMod
 
 ReachesMultisig(n, bm, fb) ==
     bm # <<>> /\ Bit(bm, 0) /\ Len(bm) = E(n) /\ OnesCountAll(bm) >= Threshold(n, fb)
@@ -48,6 +51,7 @@ SampledCase(c) ==
 ModeCase(c) ==
     \E n \in NsFull \cup NsSampled, fb \in BOOLEAN, m \in Modes \ {"sel"} : \E bm \in Bitmaps(E(n)) :
         /\ n \in NsFull \/ Keep(bm)
+        /\ KeepM(bm)
         /\ ReachesMultisig(n, bm, fb)
         /\ c = CaseOf(m, n, bm, fb)
 AlphaCase(c) ==
